@@ -4,7 +4,7 @@
 //! directory under /dev/shm). Explicit-state exploration: a state *is* an operation history; every
 //! history is replayed from scratch on a fresh real store, next to a `HashMap` model.
 //!
-//! Operations on ids {1,2} (9 per id) and on the handle (2):
+//! Operations on ids {1,2} (16 per id) and on the handle (2):
 //!   insert(i)      entry(i) → vacant: insert a fresh key / occupied: drop the entry
 //!   drop(i)        entry(i) → drop the entry (a vacant entry dropped unused)
 //!   get(i)         entry(i) → occupied: `get` / vacant: drop
@@ -14,6 +14,11 @@
 //!   store_get(i)   `KeyStore::get`
 //!   try_insert(i)  `KeyStore::try_insert` (must fail with AlreadyExists on an occupied id)
 //!   remove(i)      `KeyStore::remove`
+//!   fail_insert(i,at=p)      entry(i) → vacant: insert a key whose `Serialize` fails at position p
+//!                  (1 before anything is emitted, 2 after the struct header, 3 after the first
+//!                  field, 4 after the last-but-one field, 5 after the last field); the insert must
+//!                  fail and the id stays vacant
+//!   fail_try_insert(i,at=p)  `KeyStore::try_insert` of such a key (p ∈ {1,3})
 //!   reopen         fs: drop the store and open the directory again; mem: move into a clone
 //!   try_clone      fs: `try_clone` and continue on the clone; mem: `clone`
 //! Keys alternate between a short and a ~300-byte payload per id, so stale or truncated contents
@@ -38,17 +43,57 @@ use serde::{Deserialize, Serialize};
 
 use crate::util::MinCases;
 
-#[derive(Clone, Debug, PartialEq, Eq, Serialize, Deserialize)]
+#[derive(Clone, Debug, PartialEq, Eq, Deserialize)]
 struct Key {
     id: u8,
     ver: u8,
     pad: Vec<u8>,
+    /// 0 = encodes fine; p ≥ 1 = `Serialize` fails at position p (see `FAIL_POS`). Never stored.
+    #[serde(skip, default)]
+    fail_at: u8,
+}
+
+/// Where a failing key's `Serialize` gives up: 1 = before anything is emitted, 2 = after the
+/// struct header, 3 = after the first field, 4 = after the last-but-one field, 5 = after the last
+/// field (everything emitted, then the error).
+const FAIL_POS: [u8; 5] = [1, 2, 3, 4, 5];
+
+impl Serialize for Key {
+    fn serialize<S: serde::Serializer>(&self, s: S) -> Result<S::Ok, S::Error> {
+        use serde::ser::{Error as _, SerializeStruct as _};
+        let boom = |p: u8| S::Error::custom(format!("key cannot be encoded (position {p})"));
+        if self.fail_at == 1 {
+            return Err(boom(1));
+        }
+        let mut st = s.serialize_struct("Key", 3)?;
+        if self.fail_at == 2 {
+            return Err(boom(2));
+        }
+        st.serialize_field("id", &self.id)?;
+        if self.fail_at == 3 {
+            return Err(boom(3));
+        }
+        st.serialize_field("ver", &self.ver)?;
+        if self.fail_at == 4 {
+            return Err(boom(4));
+        }
+        st.serialize_field("pad", &self.pad)?;
+        if self.fail_at == 5 {
+            return Err(boom(5));
+        }
+        st.end()
+    }
 }
 
 impl Key {
     fn new(id: u8, ver: u8) -> Self {
         let n = if ver == 2 { 300 } else { 0 };
-        Key { id, ver, pad: (0..n).map(|i| (i as u8) ^ id ^ 0x5a).collect() }
+        Key { id, ver, pad: (0..n).map(|i| (i as u8) ^ id ^ 0x5a).collect(), fail_at: 0 }
+    }
+    fn failing(id: u8, pos: u8) -> Self {
+        let mut k = Key::new(id, 2);
+        k.fail_at = pos;
+        k
     }
 }
 
@@ -79,6 +124,10 @@ enum Op {
     GetRemove(u8),
     StoreGet(u8),
     TryInsert(u8),
+    /// entry → vacant: insert a key whose encoding fails at the given position
+    FailInsert(u8, u8),
+    /// `KeyStore::try_insert` with such a key
+    FailTryInsert(u8, u8),
     Remove(u8),
     Reopen,
     TryClone,
@@ -88,6 +137,12 @@ fn alphabet() -> Vec<Op> {
     let mut v = Vec::new();
     for i in IDS {
         v.extend([Op::Insert(i), Op::Drop(i), Op::Get(i), Op::GetGet(i), Op::OccRemove(i), Op::GetRemove(i), Op::StoreGet(i), Op::TryInsert(i), Op::Remove(i)]);
+        for p in FAIL_POS {
+            v.push(Op::FailInsert(i, p));
+        }
+        for p in [1, 3] {
+            v.push(Op::FailTryInsert(i, p));
+        }
     }
     v.push(Op::Reopen);
     v.push(Op::TryClone);
@@ -105,6 +160,8 @@ impl Op {
             Op::GetRemove(i) => format!("get_remove({i})"),
             Op::StoreGet(i) => format!("store_get({i})"),
             Op::TryInsert(i) => format!("try_insert({i})"),
+            Op::FailInsert(i, p) => format!("fail_insert({i},at={p})"),
+            Op::FailTryInsert(i, p) => format!("fail_try_insert({i},at={p})"),
             Op::Remove(i) => format!("remove({i})"),
             Op::Reopen => "reopen".into(),
             Op::TryClone => "try_clone".into(),
@@ -120,6 +177,8 @@ impl Op {
             Op::GetRemove(_) => "get_remove",
             Op::StoreGet(_) => "store_get",
             Op::TryInsert(_) => "try_insert",
+            Op::FailInsert(..) => "fail_insert",
+            Op::FailTryInsert(..) => "fail_try_insert",
             Op::Remove(_) => "remove",
             Op::Reopen => "reopen",
             Op::TryClone => "try_clone",
@@ -252,6 +311,37 @@ fn step<T: Sut>(mut store: T::S, model: &mut Model, op: Op, dir: &Scratch) -> Re
                         bad!("wrong error kind", "try_insert({i}) on an occupied id failed with {:?}: {e}", e.kind());
                     }
                 }
+            }
+        }
+        Op::FailTryInsert(i, p) => match store.try_insert(bid(i), Key::failing(i, p)) {
+            Ok(()) => bad!("Ok although the key cannot be encoded", "try_insert({i}) of a key whose encoding fails at position {p} returned Ok"),
+            Err(e) => {
+                if model.map.contains_key(&i) && e.kind() != ErrorKind::AlreadyExists {
+                    bad!("wrong error kind", "failing try_insert({i}) on an occupied id failed with {:?}: {e}", e.kind());
+                }
+                // the model is unchanged: a failed insert leaves the id as it was
+            }
+        },
+        Op::FailInsert(i, p) => {
+            let mut fail: Option<Fail> = None;
+            match store.entry::<Key>(bid(i)) {
+                Err(e) => fail = Some(("entry Err".into(), format!("entry({i}) failed: {e}"))),
+                Ok(Entry::Vacant(v)) => {
+                    if model.map.contains_key(&i) {
+                        fail = Some(("vacant entry for an occupied id".into(), format!("entry({i}) is Vacant but the model holds a key")));
+                    } else if v.insert(Key::failing(i, p)).is_ok() {
+                        fail = Some(("Ok although the key cannot be encoded".into(), format!("insert through the vacant entry of {i} of a key whose encoding fails at position {p} returned Ok")));
+                    }
+                }
+                Ok(Entry::Occupied(o)) => {
+                    if !model.map.contains_key(&i) {
+                        fail = Some(("occupied entry for a vacant id".into(), format!("entry({i}) is Occupied but the model has no key")));
+                    }
+                    drop(o);
+                }
+            }
+            if let Some(f) = fail {
+                return Err((f, Some(store)));
             }
         }
         Op::Remove(i) => match store.remove::<Key>(bid(i)) {
